@@ -35,6 +35,7 @@ ASSUMPTIONS = [
     "histories are date-monotone (R3) except in the sub-generator aimed at F7",
     "in-lot sold percentage depends on the window by design and is judged by C13 only without a from-date",
 ]
+RULE += e2e.RULE_SUFFIX
 
 CFG = gen.GenCfg(min_steps=4, max_steps=18, max_exchanges=2, max_holders=2)
 FIELDS = ("ev", "lot", "amount", "proceeds", "basis", "gain", "long", "running")
